@@ -192,7 +192,7 @@ PROPS["C18"] = dict(
     theorems=["Goflow.C18.start_stop_results", "Goflow.C18.shutdown_order", "Goflow.C18.skeleton_matches",
               "Goflow.C18.drainInv_init", "Goflow.C18.drainInv_step", "Goflow.C18.drainInv_run",
               "Goflow.C18.stop_drains", "Goflow.C18.stop_not_stuck",
-              "Goflow.C18.quit_open_after_every_call", "Goflow.C18.callRun2_results"],
+              "Goflow.C18.quit_open_after_every_call", "Goflow.C18.callRun2_results", "Goflow.C18.startup_order"],
     generators=[dict(name="C18", quick=4, thorough=6, subseeds=1)],
     harness=["impl"],
     count_all=True,
